@@ -14,5 +14,6 @@ sed -i "s#/repo/crates#$wt/crates#g" "$alt/vh/Cargo.toml" "$alt/vm/Cargo.toml"
 sed -i "s#target-dir = .*#target-dir = \"/tmp/vh-alt-target$tag\"#" "$alt/.cargo/config.toml"
 cd "$alt" && CARGO_NET_OFFLINE=true cargo build -q -p vh 2>/tmp/vh-alt-build$tag.log || { echo "INCONCLUSIVE property=$id reason=harness does not build against $wt"; tail -20 /tmp/vh-alt-build$tag.log; exit 2; }
 export VH_OUT="${VH_OUT:-/tmp/vh-out-$id}"; mkdir -p "$VH_OUT"
+export VH_REPO="$wt"
 export VH_SCRATCH=$(mktemp -d /tmp/vh-scratch.XXXXXX); trap 'rm -rf "$VH_SCRATCH"' EXIT
 /tmp/vh-alt-target$tag/debug/vh "$id" "$@"
